@@ -98,13 +98,20 @@ func (s bitmap32) And(provider Provider[uint32]) {
 		s.bitmap.And(typedProvider.bitmap)
 
 	case Duplex[uint32]:
+		// Collect first: removing from the bitmap while iterating it invalidates the iterator.
+		var removals []uint32
+
 		s.Each(func(nextValue uint32) bool {
 			if !typedProvider.Contains(nextValue) {
-				s.Remove(nextValue)
+				removals = append(removals, nextValue)
 			}
 
 			return true
 		})
+
+		for _, removal := range removals {
+			s.Remove(removal)
+		}
 	}
 }
 
@@ -137,12 +144,19 @@ func (s bitmap32) AndNot(provider Provider[uint32]) {
 		s.bitmap.AndNot(typedProvider.bitmap)
 
 	case Duplex[uint32]:
+		// Collect first: removing from the bitmap while iterating it invalidates the iterator.
+		var removals []uint32
+
 		s.Each(func(nextValue uint32) bool {
 			if typedProvider.Contains(nextValue) {
-				s.Remove(nextValue)
+				removals = append(removals, nextValue)
 			}
 
 			return true
 		})
+
+		for _, removal := range removals {
+			s.Remove(removal)
+		}
 	}
 }
